@@ -273,7 +273,13 @@ func (p *Pkg) resolveTypeErr(e ast.Expr) (*T, error) {
 			if e.Name == "Term" {
 				return tTerm, nil
 			}
-			return nil, fmt.Errorf("interface type %s (only Term is represented)", e.Name)
+			if ifaceFor(e.Name) != nil {
+				if err := p.checkIface(e.Name); err != nil {
+					return nil, err
+				}
+				return &T{K: KIface, Name: e.Name}, nil
+			}
+			return nil, fmt.Errorf("interface type %s (only Term, Op, UnaryOpFunc, BinaryOpFunc are represented)", e.Name)
 		}
 		u, err := p.resolveTypeErr(ts.Type)
 		if err != nil {
@@ -318,11 +324,171 @@ func (p *Pkg) resolveTypeErr(e ast.Expr) (*T, error) {
 		if e.Fields == nil || len(e.Fields.List) == 0 {
 			return &T{K: KStruct}, nil
 		}
-		return nil, fmt.Errorf("struct type with fields")
+		// a struct with exactly one field is represented by that field
+		if len(e.Fields.List) == 1 && len(e.Fields.List[0].Names) <= 1 && e.Fields.List[0].Tag == nil {
+			f := e.Fields.List[0]
+			ft, err := p.resolveTypeErr(f.Type)
+			if err != nil {
+				return nil, fmt.Errorf("struct field: %v", err)
+			}
+			if ft.K == KPtr || ft.K == KBigInt || ft.K == KRegexp {
+				return nil, fmt.Errorf("struct with a pointer field (aliasing is not represented)")
+			}
+			if len(f.Names) == 1 {
+				return &T{K: KWrap, Elem: ft, Field: f.Names[0].Name}, nil
+			}
+			id, ok := f.Type.(*ast.Ident)
+			if !ok {
+				return nil, fmt.Errorf("embedded field of type %T", f.Type)
+			}
+			return &T{K: KWrap, Elem: ft, Field: id.Name, Embedded: true}, nil
+		}
+		return nil, fmt.Errorf("struct type with several fields")
+	case *ast.MapType:
+		kt, err := p.resolveTypeErr(e.Key)
+		if err != nil {
+			return nil, err
+		}
+		vt, err := p.resolveTypeErr(e.Value)
+		if err != nil {
+			return nil, err
+		}
+		// the only map of the subset: map[Variable]*Term, the model's dbindings (Model/DEval.v)
+		if kt.Name == "Variable" && vt.K == KPtr && vt.Elem.K == KIface && vt.Elem.Name == "Term" {
+			return &T{K: KMap, Key: kt, Elem: vt}, nil
+		}
+		return nil, fmt.Errorf("map type map[%v]%v (only map[Variable]*Term is represented)", kt, vt)
 	case *ast.ParenExpr:
 		return p.resolveTypeErr(e.X)
 	}
 	return nil, fmt.Errorf("type expression %T", e)
+}
+
+// typeStr prints a type expression (for the comparison of method signatures).
+func typeStr(e ast.Expr) string {
+	switch e := e.(type) {
+	case *ast.Ident:
+		return e.Name
+	case *ast.StarExpr:
+		return "*" + typeStr(e.X)
+	case *ast.ArrayType:
+		if e.Len == nil {
+			return "[]" + typeStr(e.Elt)
+		}
+		return "[" + exprStr(e.Len) + "]" + typeStr(e.Elt)
+	case *ast.SelectorExpr:
+		return typeStr(e.X) + "." + e.Sel.Name
+	case *ast.MapType:
+		return "map[" + typeStr(e.Key) + "]" + typeStr(e.Value)
+	case *ast.ParenExpr:
+		return typeStr(e.X)
+	case *ast.InterfaceType:
+		return "interface{...}"
+	case *ast.StructType:
+		return "struct{...}"
+	}
+	return fmt.Sprintf("%T", e)
+}
+
+func fieldTypes(fl *ast.FieldList) []string {
+	var out []string
+	if fl == nil {
+		return out
+	}
+	for _, f := range fl.List {
+		n := len(f.Names)
+		if n == 0 {
+			n = 1
+		}
+		for i := 0; i < n; i++ {
+			out = append(out, typeStr(f.Type))
+		}
+	}
+	return out
+}
+
+// checkIface compares the implementors of a represented interface listed in
+// ifaceReps with the types of the package whose method set (value receivers)
+// contains every method of the interface with the same signature.
+func (p *Pkg) checkIface(name string) error {
+	if err, done := p.ifaceChecked[name]; done {
+		return err
+	}
+	if p.ifaceChecked == nil {
+		p.ifaceChecked = map[string]error{}
+	}
+	err := p.checkIface1(name)
+	p.ifaceChecked[name] = err
+	return err
+}
+
+func (p *Pkg) checkIface1(name string) error {
+	rep := ifaceFor(name)
+	it := p.types[name].Type.(*ast.InterfaceType)
+	type msig struct {
+		name            string
+		params, results []string
+	}
+	var methods []msig
+	for _, m := range it.Methods.List {
+		ft, ok := m.Type.(*ast.FuncType)
+		if !ok || len(m.Names) != 1 {
+			return fmt.Errorf("interface %s: embedded interface or type list", name)
+		}
+		methods = append(methods, msig{m.Names[0].Name, fieldTypes(ft.Params), fieldTypes(ft.Results)})
+	}
+	eq := func(a, b []string) bool {
+		if len(a) != len(b) {
+			return false
+		}
+		for i := range a {
+			if a[i] != b[i] {
+				return false
+			}
+		}
+		return true
+	}
+	found := map[string]bool{}
+	for tn, ts := range p.types {
+		if _, isIface := ts.Type.(*ast.InterfaceType); isIface {
+			continue
+		}
+		all := true
+		for _, m := range methods {
+			d, ok := p.funcs[tn+"."+m.name]
+			if !ok || d.Recv == nil {
+				all = false
+				break
+			}
+			if _, ptr := d.Recv.List[0].Type.(*ast.StarExpr); ptr {
+				all = false // *T implements the interface, not T
+				break
+			}
+			if !eq(fieldTypes(d.Type.Params), m.params) || !eq(fieldTypes(d.Type.Results), m.results) {
+				all = false
+				break
+			}
+		}
+		if all {
+			found[tn] = true
+		}
+	}
+	var missing, extra []string
+	for _, im := range rep.impls {
+		if !found[im.goType] {
+			extra = append(extra, im.goType)
+		}
+		delete(found, im.goType)
+	}
+	for tn := range found {
+		missing = append(missing, tn)
+	}
+	sort.Strings(missing)
+	if len(missing) > 0 || len(extra) > 0 {
+		return fmt.Errorf("interface %s: the implementors in the source differ from the constructors of the model's %s (implementing types without a constructor: %v; constructors without an implementing type: %v)",
+			name, rep.coq, missing, extra)
+	}
+	return nil
 }
 
 // assignedAnywhere reports whether a package-level variable is assigned,
